@@ -40,6 +40,8 @@ def check(prog, rep, tier):
                       'in Idle starts a TCP connect, under no guard other than allow_automatic_start')
     rep.rule('R02.d', 'no sticky gate: allow_automatic_start is written only by construction, manual start '
                       'and manual stop')
+    rep.rule('R02.e', 'no earlier session changes what the next one negotiates: the session hold time is '
+                      'min(configured value, value proposed in this OPEN), never a value left by an earlier session')
     rep.rule('R02.f', 'Active is transient: no path ends in Active, the only connectTCP targets the BGP '
                       'port (so paths with pre-state Active are exempt from R02.a)')
     rep.assumptions += ['loseConnection() is followed by connectionLost() (Twisted)',
@@ -170,6 +172,29 @@ def check(prog, rep, tier):
     if seen_c and all(v == 'ok' for v in seen_c.values()):
         rep.ok('R02.c', 'close-marks-disconnected', file='yabgp/core/protocol.py',
                found='%d closing cells mark the protocol as disconnected' % len(seen_c))
+
+    # ---------------------------------------------------------------- R02.e
+    n_acc = 0
+    bad_e = None
+    for r in tab.get('WIRE', 'OpenSent'):
+        if r.wire['cls'] == 'OPEN' and r.final == 'OpenConfirm':
+            n_acc += 1
+            h = r.field('fsm', 'hold_time')
+            good = isinstance(h, Sym) and h.origin and h.origin[0] == 'min' and \
+                any(a.desc().startswith(('CONF.', 'cfg.', 'oslo_config')) for a in h.origin[1]) and \
+                any(r.st.syminfo.get(a.desc(), (None,))[0] == '!BHHIB' for a in h.origin[1])
+            if not good and bad_e is None:
+                bad_e = (r, h)
+    if bad_e:
+        r, h = bad_e
+        rep.bad('R02.e', 'session-hold-time', file='yabgp/core/protocol.py', line=common.row_line(r),
+                func='BGP.negotiate_hold_time', found='session hold time = %s: a value left in the FSM by an earlier '
+                'session decides this one (an earlier OPEN with hold time 1/2 then blocks every later OPEN)' % cval(h),
+                expected='min(configured hold time, peer proposal)', key='session-hold-time', path=r.describe())
+    elif n_acc:
+        rep.ok('R02.e', 'session-hold-time', file='yabgp/core/protocol.py', found='%d accepting paths' % n_acc)
+    else:
+        rep.undecided('R02.e', 'session-hold-time', found='no accepting path')
 
     # ---------------------------------------------------------------- R02.d
     allowed = {'__init__', 'manual_start', 'manual_stop'}
